@@ -1,8 +1,8 @@
 """Which contract groups serve which property."""
 PROPERTY_GROUPS = {
-    'C01': ['rep'],
+    'C01': ['rep', 'dt'],
     'C02': ['rep'],
-    'C06': ['rep', 'timing'],
+    'C06': ['rep', 'timing', 'dt'],
     'C08': ['timing'],
     'C09': ['timing', 'rep', 'dt'],
     'C11': ['playready'],
